@@ -717,9 +717,39 @@ func positionMapsKindSafe(c *Ctx) {
 							}
 						}
 					}
+					// positions may be collected in a list first (a worklist of positions) and used from there
+					posLists := map[types.Object]bool{}
+					for _, w := range fn.WritesIn(fn.Body, false) {
+						if w.RHS == nil {
+							continue
+						}
+						if ac, ok := ast.Unparen(w.RHS).(*ast.CallExpr); ok && len(ac.Args) == 2 {
+							if id, ok := ac.Fun.(*ast.Ident); ok && id.Name == "append" && posVars[fn.ObjOf(ac.Args[1])] {
+								if lo := fn.ObjOf(w.LHS); lo != nil {
+									posLists[lo] = true
+								}
+							}
+						}
+					}
+					ir.Walk(fn.Body, false, func(x ast.Node) {
+						if rs, ok := x.(*ast.RangeStmt); ok && rs.Value != nil && posLists[fn.ObjOf(rs.X)] {
+							if vo := fn.ObjOf(rs.Value); vo != nil {
+								posVars[vo] = true
+							}
+						}
+					})
+					isPos := func(e ast.Expr) bool {
+						if posVars[fn.ObjOf(e)] {
+							return true
+						}
+						if inner, ok := ast.Unparen(e).(*ast.IndexExpr); ok && posLists[fn.ObjOf(inner.X)] {
+							return true
+						}
+						return false
+					}
 					ir.Walk(fn.Body, false, func(x ast.Node) {
 						ix, ok := x.(*ast.IndexExpr)
-						if !ok || !posVars[fn.ObjOf(ix.Index)] {
+						if !ok || !isPos(ix.Index) {
 							return
 						}
 						fld := fn.FieldOf(ix.X)
@@ -829,6 +859,9 @@ func c14r7(c *Ctx) {
 			}
 			ob := c.Ob(f, "registration-paired-with-append", n.Pos())
 			lst := lenOf(f, val)
+			if lst == nil {
+				lst = lenOf(f, origin(f, val)) // the position handed to a registering helper
+			}
 			if lst == nil {
 				ob.Bad(nil, "the position stored for an id at %s is not the length of the list the transaction is appended to", c.P.Pos(n.Pos()))
 				continue
